@@ -39,6 +39,7 @@ fn ctl() -> &'static Ctl {
             hits: AtomicUsize::new(0),
         };
         verif::set_hook(Some(Box::new(hook)));
+        HOOK_ON.store(true, Ordering::Relaxed);
         c
     })
 }
@@ -94,6 +95,15 @@ fn hook(name: &'static str) {
     }
     let _ = c.hits.fetch_add(1, Ordering::Relaxed);
 }
+
+/// a yield point of the harness itself (not of pocket-db): same tracing / pausing / killing as the library's
+pub fn user_point(name: &'static str) {
+    if HOOK_ON.load(Ordering::Relaxed) {
+        hook(name);
+    }
+}
+
+static HOOK_ON: std::sync::atomic::AtomicBool = std::sync::atomic::AtomicBool::new(false);
 
 fn run_req(st: &St, line: &[&str]) -> Result<String, String> {
     let store = st.store.as_ref().ok_or("nostore")?;
